@@ -142,7 +142,7 @@ def scenario_runs(exe, mode_arg, payload):
     for (lang, ext) in RUN_LANGS:
         for mode in ('file', 'folder'):
             for ln in (1, 2, 3):
-                for seq in itertools.product(sorted(VERSIONS) if ln < 3 else ['v1', 'v2', 'v3'], repeat=ln):
+                for seq in itertools.product(sorted(VERSIONS) if (ln < 3 or os.environ.get('VERIF_TIER') == 'thorough') else ['v1', 'v2', 'v3'], repeat=ln):
                     n += 1
                     m = runs_case(exe, lang, ext, mode, list(seq))
                     if m:
